@@ -17,12 +17,13 @@ type lifeSpec struct {
 	Capacity   uint64
 	Drain      bool // advance until nothing is scheduled at the end of the case
 	MaxSteps   int
+	Finish     func(s *Sim, cfg *LifeCfg, os []Oracle)
 }
 
-var lifeActions = []string{"storeNew", "storeUpdate", "complete", "cancel", "terminate", "renew", "migrate", "claim", "advance", "storeHostile", "seed", "vstorage", "bankDrain", "resetNode"}
+var lifeActions = []string{"storeNew", "storeUpdate", "complete", "cancel", "terminate", "renew", "migrate", "claim", "advance", "storeHostile", "seed", "vstorage", "bankDrain", "resetNode", "debtCombo", "keepAlive"}
 
 // actions that are off unless a spec gives them a weight
-var lifeOptIn = map[string]bool{"storeHostile": true, "seed": true, "vstorage": true, "bankDrain": true, "resetNode": true}
+var lifeOptIn = map[string]bool{"storeHostile": true, "seed": true, "vstorage": true, "bankDrain": true, "resetNode": true, "debtCombo": true}
 
 func (sp *lifeSpec) newSim(t TB) (*Sim, *LifeCfg, []Oracle) {
 	os := sp.Oracles()
@@ -48,7 +49,7 @@ func (sp *lifeSpec) property() func(*rapid.T) {
 				"storeNew": cfg.GenStoreNew, "storeUpdate": cfg.GenStoreUpdate, "complete": cfg.GenComplete,
 				"cancel": cfg.GenCancel, "terminate": cfg.GenTerminate, "renew": cfg.GenRenew,
 				"migrate": cfg.GenMigrate, "claim": cfg.GenClaim, "advance": cfg.GenAdvance,
-				"storeHostile": cfg.GenStoreHostile, "seed": cfg.GenSeed, "vstorage": cfg.GenVstorage, "bankDrain": cfg.GenBankDrain, "resetNode": cfg.GenResetNode,
+				"storeHostile": cfg.GenStoreHostile, "seed": cfg.GenSeed, "vstorage": cfg.GenVstorage, "bankDrain": cfg.GenBankDrain, "resetNode": cfg.GenResetNode, "debtCombo": cfg.GenDebtCombo, "keepAlive": cfg.GenKeepAlive,
 			}
 			var menu []string
 			for _, k := range lifeActions {
@@ -91,6 +92,9 @@ func (sp *lifeSpec) property() func(*rapid.T) {
 			}
 			if sp.Drain {
 				s.DrainAll(60000)
+			}
+			if sp.Finish != nil {
+				sp.Finish(s, cfg, os)
 			}
 		})
 		if aborted != "" {
@@ -169,7 +173,8 @@ var specC06 = &lifeSpec{
 		interesting := s.Labels["debt-created"] + s.Labels["debt-repaid"] + s.Labels["renew+"] + s.Labels["migrate+"] + s.Labels["claim+"]
 		return o.MaxEscrowsNonZero >= 2 && interesting > 0
 	},
-	Weights: map[string]int{"complete": 4, "advance": 3, "storeNew": 2, "renew": 3, "bankDrain": 2, "claim": 2, "vstorage": 1},
+	Weights: map[string]int{"complete": 4, "advance": 3, "storeNew": 2, "renew": 3, "bankDrain": 2, "claim": 2, "vstorage": 1, "debtCombo": 2},
+	Drain:   true,
 }
 
 func init() { specC06.register() }
@@ -210,3 +215,55 @@ var specC05 = &lifeSpec{
 func init() { specC05.register() }
 
 func TestC05(t *testing.T) { runRapid(t, "TestC05", specC05.property()) }
+
+// ---- C07 ----
+
+var specC07 = &lifeSpec{
+	Prop: "C07", Test: "TestC07",
+	Oracles: func() []Oracle { return []Oracle{NewC07()} },
+	Tune:    func(cfg *LifeCfg, s *Sim) { s.TraceSteps = true },
+	Nontrivial: func(s *Sim, os []Oracle) bool {
+		return os[0].(*C07Oracle).Ended > 0 && (s.Labels["add_vstorage+"]+s.Labels["remove_vstorage+"]+s.Labels["renew+"]+s.Labels["claim+"] > 0)
+	},
+	Weights:  map[string]int{"complete": 5, "advance": 4, "storeNew": 2, "renew": 3, "migrate": 2, "vstorage": 3, "bankDrain": 2, "claim": 2, "terminate": 1, "debtCombo": 2},
+	Drain:    true,
+	MaxSteps: 35,
+	Capacity: 300_000_000,
+}
+
+func init() { specC07.register() }
+
+func TestC07(t *testing.T) { runRapid(t, "TestC07", specC07.property()) }
+
+// ---- C04 ----
+
+var specC04 = &lifeSpec{
+	Prop: "C04", Test: "TestC04",
+	Oracles: func() []Oracle { return []Oracle{NewC04()} },
+	Tune:    func(cfg *LifeCfg, s *Sim) { s.TraceSteps = true },
+	Nontrivial: func(s *Sim, os []Oracle) bool {
+		return os[0].(*C04Oracle).Settled > 0 && s.Labels["claim+"] > 0
+	},
+	Weights:  map[string]int{"complete": 5, "advance": 4, "storeNew": 3, "storeUpdate": 2, "renew": 3, "migrate": 2, "claim": 2, "terminate": 2, "cancel": 1, "keepAlive": 1},
+	Drain:    true,
+	MaxSteps: 35,
+	Finish: func(s *Sim, cfg *LifeCfg, os []Oracle) {
+		for _, p := range cfg.Providers {
+			s.Do(NewAction("claim", p))
+		}
+		os[0].(*C04Oracle).Final(s)
+	},
+}
+
+func init() {
+	replayers["TestC04"] = func(t TB, v *Violation) {
+		s, cfg, os := specC04.newSim(t)
+		replayHistory(s, v.History)
+		_ = cfg
+		if RunCase(func() { os[0].(*C04Oracle).Final(s) }) != "" {
+			return
+		}
+	}
+}
+
+func TestC04(t *testing.T) { runRapid(t, "TestC04", specC04.property()) }
